@@ -7,6 +7,7 @@ Reads from /repo/src (current working tree):
               the `filter_map` closure, whether diagnostics are collected while scanning, which index `map_err` reports)
               and the `InOrder` block as a statement list;
   * fn_mocker.rs `FnMocker::find_call_pattern_for_call_order` — how the first owning pattern is looked up (three spellings known);
+  * counter.rs `CallCounter::fetch_add`, call_pattern.rs `CallPattern::next_responder` — the match counter's bump and which value selects the responder;
   * state.rs  `SharedState::bump_ordered_call_index` — the atomic operation, its increment and ordering.
 The vocabulary and its interpreters are in `Model/ScanSkel.lean`; `Props/C01.lean` and `Props/C04.lean` prove the
 interpreted skeletons equal to the hand-written model's `scan` / ordered branch (so a source change that alters the
@@ -376,6 +377,25 @@ def main():
     if not rec_find:
         f_over, f_adapt, f_own = True, ['.iter', '.enumerate', '.find', '.map'], True
         notes.append('UNRECOGNISED shape of FnMocker::find_call_pattern_for_call_order: fallback, C04_source_find vacuous, tie = correspondence run')
+    # CallCounter::fetch_add and CallPattern::next_responder
+    cnt_path = os.path.join(ROOT, 'counter.rs')
+    c_op, c_delta, c_seq, rec_cnt = 'unknown', 0, False, False
+    if os.path.exists(cnt_path):
+        cb = fn_body(strip(open(cnt_path).read()), 'fetch_add')
+        if cb is not None:
+            m = re.fullmatch(r'self\.actual_count\.([a-z_]+)\((\d+),(?:(?:core|std)::sync::atomic::|atomic::)?Ordering::(\w+)\)', re.sub(r'\s+', '', cb))
+            if m:
+                c_op, c_delta, c_seq, rec_cnt = m.group(1), int(m.group(2)), m.group(3) == 'SeqCst', True
+    if not rec_cnt:
+        c_op, c_delta, c_seq = 'fetch_add', 1, True
+        notes.append('UNRECOGNISED shape of CallCounter::fetch_add: fallback, C01_source_count_bump vacuous for it')
+    nr = fn_body(strip(open(cp_path).read()), 'next_responder') if os.path.exists(cp_path) else None
+    nr_flat = re.sub(r'\s+', '', nr) if nr is not None else ''
+    rec_nr = nr_flat.startswith('find_responder_by_call_index(')
+    nr_old = nr_flat == 'find_responder_by_call_index(&self.responders,self.call_counter.fetch_add())'
+    if not rec_nr:
+        nr_old = True
+        notes.append('UNRECOGNISED shape of CallPattern::next_responder: fallback')
     b = lambda x: 'true' if x else 'false'
     lines = [
         'import Unimock.Model.ScanSkel',
@@ -395,6 +415,12 @@ def main():
         f'def recognised_matchInputs : Bool := {b(rec_mi)}',
         '/-- `CallPattern::match_inputs`: the arms of its `match (&self.input_matcher.dyn_matching_fn, mismatch_reporter)` -/',
         'def matchInputsArms : List MIArm := [' + ', '.join(f'⟨{a}, {r}, {x}⟩' for a, r, x in mi) + ']',
+        f'def recognised_countBump : Bool := {b(rec_cnt)}',
+        f'def recognised_nextResponder : Bool := {b(rec_nr)}',
+        '/-- `CallCounter::fetch_add` (the per-pattern match counter) -/',
+        f'def countBumpSkel : BumpSkel := {{ op := {ATOM.get(c_op, ".other")}, delta := {c_delta}, seqCst := {b(c_seq)} }}',
+        '/-- `CallPattern::next_responder` looks the responder up by the value `fetch_add` RETURNS (the count before this call) -/',
+        f'def nextResponderByOldCount : Bool := {b(nr_old)}',
         f'def recognised_find : Bool := {b(rec_find)}',
         '/-- `FnMocker::find_call_pattern_for_call_order` (its ownership test is `Generated.ownsSrc`, translate_counter.py) -/',
         f'def findSkel : FindSkel := {{ overCallPatterns := {b(f_over)}, adaptors := [{", ".join(f_adapt)}], ownIndex := {b(f_own)} }}',
